@@ -153,7 +153,7 @@ def _run_suite(spec, suite, tier, rng, ctx, budget_scale=1):
         # is found or the time budget of this suite is used up
         budget = float(os.environ.get("VERIF_ESCALATE_BUDGET_S", "100"))
         for k in range(ctx.get("escalate", 0)):
-            if res["oracle_fail"] or res["crashes"] or time.time() - t_suite > budget:
+            if res["oracle_fail"] or res["crashes"] or ctx.get("found_concrete") or time.time() - t_suite > budget:
                 break
             extra = suite.gen_cases(random.Random(ctx.get("seed", 1) * 7919 + 31 * (k + 1) + len(suite.name)), tier)
             eval_batch(extra, 0, "deepening %d: " % (k + 1))
@@ -294,6 +294,8 @@ def run_check(spec, tier="quick", replay=None):
                 log("[%s/%s] harness does not build against this tree" % (pid, suite.name))
                 continue
             suite_results.append((suite, r))
+            if r["oracle_fail"] or r["crashes"]:
+                ctx["found_concrete"] = True     # a concrete failing input exists: the other suites need no deepening
         spec.extra_checks(ctx)
     else:
         return _replay(spec, replay)
